@@ -66,7 +66,8 @@ type Ctx struct {
 
 	start time.Time
 
-	evals int64
+	evals       int64
+	occurrences int64 // violation occurrences (all keys)
 
 	mu           sync.Mutex
 	distinct     map[uint64]struct{}
@@ -80,6 +81,7 @@ type Ctx struct {
 	assumptions  []string
 	notes        []string
 	workerOut    string
+	postmortem   bool
 }
 
 func New(id string) *Ctx {
@@ -207,6 +209,7 @@ func (c *Ctx) Inconclusive(what string) {
 // history in a stable way (it is what known_findings.txt lists); detail must be JSON-serialisable
 // and sufficient to replay the case.
 func (c *Ctx) Violation(key string, detail interface{}) {
+	atomic.AddInt64(&c.occurrences, 1)
 	c.mu.Lock()
 	defer c.mu.Unlock()
 	if v, ok := c.violations[key]; ok {
@@ -215,7 +218,57 @@ func (c *Ctx) Violation(key string, detail interface{}) {
 	}
 	c.violations[key] = &Violation{Key: key, Detail: detail, Count: 1}
 	c.vorder = append(c.vorder, key)
+	c.journal(key, detail)
 }
+
+// journal appends the first occurrence of every violation key to the file named by VERIF_JOURNAL, so
+// that a verdict survives the death of the process (a library panic in a foreign goroutine, the OOM
+// killer): the driver then runs the binary in --postmortem mode, which reports what was journalled.
+func (c *Ctx) journal(key string, detail interface{}) {
+	p := os.Getenv("VERIF_JOURNAL")
+	if p == "" || c.postmortem {
+		return
+	}
+	b, err := json.Marshal(map[string]interface{}{"key": key, "detail": detail})
+	if err != nil {
+		b, _ = json.Marshal(map[string]interface{}{"key": key, "detail": fmt.Sprint(detail)})
+	}
+	if len(b) > 1<<20 {
+		b, _ = json.Marshal(map[string]interface{}{"key": key, "detail": "detail too large for the journal"})
+	}
+	if f, err := os.OpenFile(p, os.O_APPEND|os.O_CREATE|os.O_WRONLY, 0o644); err == nil {
+		f.Write(append(b, '\n'))
+		f.Close()
+	}
+}
+
+// Postmortem loads the journal of a run that died and reports it: violations stay violations, the death
+// itself is an inconclusive outcome.
+func (c *Ctx) Postmortem(exitStatus string) {
+	c.postmortem = true
+	if f, err := os.Open(os.Getenv("VERIF_JOURNAL")); err == nil {
+		sc := bufio.NewScanner(f)
+		sc.Buffer(make([]byte, 4<<20), 4<<20)
+		for sc.Scan() {
+			var rec struct {
+				Key    string      `json:"key"`
+				Detail interface{} `json:"detail"`
+			}
+			if json.Unmarshal(sc.Bytes(), &rec) == nil && rec.Key != "" {
+				c.Violation(rec.Key, rec.Detail)
+			}
+		}
+		f.Close()
+	}
+	c.Inconclusive("check-process-died(" + exitStatus + ")-verdict-from-journal")
+	c.Set("postmortem", "the check process died ("+exitStatus+"); this evidence lists only what had been journalled before")
+}
+
+// Saturated reports that so many violating executions were already observed (120) that
+// exploring further adds nothing: case loops may stop early. A tree that is broken systematically can
+// make every remaining case slow (a mis-parsed length becomes a giant allocation), and the verdict is
+// already decided.
+func (c *Ctx) Saturated() bool { return atomic.LoadInt64(&c.occurrences) >= 120 }
 
 func (c *Ctx) ViolationCount() int {
 	c.mu.Lock()
@@ -452,7 +505,7 @@ func (c *Ctx) Finish() {
 		os.Exit(2)
 	}
 	os.MkdirAll(filepath.Join(root, "evidence"), 0o755)
-	if c.Replay == "" {
+	if c.Replay == "" && !c.postmortem {
 		if err := os.WriteFile(filepath.Join(root, "evidence", c.ID+".json"), b, 0o644); err != nil {
 			fmt.Fprintf(os.Stderr, "HARNESS-ERROR %s: evidence: %v\n", c.ID, err)
 			os.Exit(2)
@@ -471,7 +524,7 @@ func (c *Ctx) Finish() {
 	if unknown > 0 {
 		os.Exit(1)
 	}
-	if c.Replay == "" && (c.Evals() == 0 || len(c.distinct) < 2) {
+	if c.Replay == "" && !c.postmortem && (c.Evals() == 0 || len(c.distinct) < 2) {
 		fmt.Fprintf(os.Stderr, "HARNESS-ERROR %s: the monitors observed nothing (evaluations=%d distinct=%d)\n", c.ID, c.Evals(), len(c.distinct))
 		os.Exit(2)
 	}
